@@ -13,35 +13,82 @@ ASSUMPTIONS = ["closed deterministic programs; CPython exec() as semantics"]
 
 
 HOIST = "hoist-before-effectful-test"
+ORDER = "same-point-insertions-in-text-order"
 
 
-def only_test_evaluation_differs(src, out):
-    """under every valuation: same outcome and same sequence of executed statements (only when / whether tests run differs)"""
-    try:
-        ra, rb = flowrules.run_all(src), flowrules.run_all(out)
-    except SyntaxError:
-        return False
-    for a, b in zip(ra, rb):
-        if a[0] == "fuel" and b[0] == "fuel":
-            continue
-        if a[0] != b[0] or [e for e in a[1] if e[0] == "s"] != [e for e in b[1] if e[0] == "s"]:
-            return False
-    return True
+def hoist(sts):
+    """move a statement that starts both branches of an if in front of the if, everywhere, repeatedly (what the rule does,
+    applied to a skeleton in normal form, where the continuation of every if has been sunk into its branches)"""
+    out = []
+    for st in sts:
+        if st[0] == "if":
+            b, o = hoist(st[2]), hoist(st[3])
+            while b and o and b[0] == o[0]:
+                out.append(b[0])
+                b, o = b[1:], o[1:]
+            if b or o:  # an if whose branches are both empty only evaluates its test
+                out.append(["if", st[1], b, o])
+        elif st[0] in ("while", "for"):
+            out.append([st[0], st[1], hoist(st[2]), hoist(st[3]) if len(st) > 3 else []])
+        elif st[0] == "with":
+            out.append(["with", hoist(st[1])])
+        elif st[0] == "try":
+            out.append(["try", hoist(st[1]), st[2], hoist(st[3]), hoist(st[4])])
+        else:
+            out.append(st)
+    return out
+
+
+def adjacent_swaps(sts):
+    """all skeletons obtained by exchanging two neighbouring statements somewhere"""
+    for i in range(len(sts) - 1):
+        yield sts[:i] + [sts[i + 1], sts[i]] + sts[i + 2:]
+    for i, st in enumerate(sts):
+        for j, part in enumerate(st):
+            if isinstance(part, list) and (not part or isinstance(part[0], list)):
+                for v in adjacent_swaps(part):
+                    yield sts[:i] + [st[:j] + [v] + st[j + 1:]] + sts[i + 1:]
+
+
+def equal_modulo_hoist(ctx, pairs):
+    """for each (a, b): do the normal forms coincide once common leading statements are hoisted out of every if?
+    (two rounds through the proved normaliser: normalise, hoist in Python, normalise and compare again)"""
+    if not pairs:
+        return []
+    first = ctx.driver.ask([{"suite": "validate", "a": a, "b": b} for (a, b) in pairs])
+    second = ctx.driver.ask([{"suite": "validate", "a": hoist(x["na"]), "b": hoist(x["nb"])} for x in first])
+    return [bool(x.get("ok")) or bool(y.get("ok")) for x, y in zip(first, second)]
 
 
 def flow_suite(ctx):
-    """the validator suite; a rewrite that is not validated is executed at once: the recorded finding (common leading code
-    hoisted in front of a test, so that the test runs later or not at all) is recognised by what differs"""
+    """the validator suite; a rewrite that is not validated is compared again modulo the two recorded defects of
+    breakout_common_code_in_ifs: (1) a common leading statement is moved in front of the test, (2) two statements inserted
+    at one point land in the order of their text (= one exchange of neighbouring statements in the output)"""
     s = flowrules.validate_suite(ctx)
-    known = [k for k in common.load_known("C02") if k["kind"] == "finding" and k.get("id") == HOIST]
-    keep, hits = [], 0
-    for d in s.disagreements:
-        if known and d.get("rule") == known[0]["witness"]["rule"] and "src" in d and flowrules.differs(d["src"], d["out"]) and only_test_evaluation_differs(d["src"], d["out"]):
-            hits += 1
-        else:
-            keep.append(d)
-    s.disagreements = keep
-    s.hist["known-finding:" + HOIST] = hits
+    allk = [k for k in common.load_known("C02") if k["kind"] == "finding"]
+    known = {k.get("id"): k for k in allk}
+    cand = [d for d in s.disagreements if "src" in d and HOIST in known and d.get("rule") == known[HOIST]["witness"]["rule"]]
+    skel = {}
+    for d in cand:
+        try:
+            skel[id(d)] = (flowrules.skeleton_of_source(d["src"]), flowrules.skeleton_of_source(d["out"]))
+        except Exception:  # noqa: BLE001
+            pass
+    cand = [d for d in cand if id(d) in skel]
+    res = equal_modulo_hoist(ctx, [skel[id(d)] for d in cand])
+    hoisted = {id(d) for d, ok in zip(cand, res) if ok}
+    ordered = set()
+    if ORDER in known:
+        for d in cand:
+            if id(d) in hoisted:
+                continue
+            before, after = skel[id(d)]
+            variants = list(adjacent_swaps(after))[:300]
+            if any(equal_modulo_hoist(ctx, [(before, v) for v in variants])):
+                ordered.add(id(d))
+    s.hist["known-finding:" + HOIST] = len(hoisted)
+    s.hist["known-finding:" + ORDER] = len(ordered)
+    s.disagreements = [d for d in s.disagreements if id(d) not in hoisted and id(d) not in ordered]
     return s
 
 
@@ -51,11 +98,8 @@ def suites(ctx):
 
 
 def match_known(d, known):
-    if "witness" in d and "rule" in d and "sha" not in d:  # a concrete valuation found for a rewrite that did not validate
-        for k in known:
-            if k["kind"] == "finding" and k.get("id") == HOIST and k["witness"]["rule"] == d["rule"] and only_test_evaluation_differs(d["src"], d["out"]):
-                return k
-        return None
+    if "witness" in d and "rule" in d and "sha" not in d:  # a concrete valuation found for a rewrite that did not validate:
+        return None                                         # the recorded defects were already taken out by flow_suite
     return sweep.match_known_sha(d, known)
 
 
